@@ -609,6 +609,7 @@ struct Cmp<'a> {
     guarantees: &'a [(usize, NullableInterval)],
     extra: vcommon::Json,
     case_no: u64,
+    batch: Option<&'a arrow::record_batch::RecordBatch>,
 }
 
 /// at most 2 kept witnesses per signature (the report keeps 25 in total); every occurrence is counted
@@ -628,13 +629,22 @@ fn expr_has(e: &Expr, f: impl Fn(&Expr) -> bool) -> bool {
     e.exists(|n| Ok(f(n))).unwrap_or(false)
 }
 
+fn is_lit_or_cast_lit(e: &Expr) -> bool {
+    match e {
+        Expr::Literal(..) => true,
+        Expr::Cast(c) => matches!(c.expr.as_ref(), Expr::Literal(..)),
+        _ => false,
+    }
+}
+
 fn is_float_zero_lit(e: &Expr) -> bool {
     matches!(e, Expr::Literal(ScalarValue::Float64(Some(f)), _) if *f == 0.0) || matches!(e, Expr::Literal(ScalarValue::Float32(Some(f)), _) if *f == 0.0)
 }
 
 /// Root-cause key of a disagreement, when it can be keyed precisely (so that other violations still
 /// surface under the family signature). `kind` is value / null-ness / error / data-type.
-fn classify(cx: &Ctx, c: &Cmp, kind: &str, row: Option<&[V]>, err: Option<&str>) -> Option<&'static str> {
+fn classify(cx: &Ctx, c: &Cmp, kind: &str, row_index: Option<usize>, err: Option<&str>) -> Option<&'static str> {
+    let row: Option<&[V]> = row_index.map(|r| c.rows[r].as_slice());
     let env = cx.env;
     let ty = |e: &Expr| -> Option<DataType> {
         use datafusion_expr::ExprSchemable;
@@ -669,17 +679,23 @@ fn classify(cx: &Ctx, c: &Cmp, kind: &str, row: Option<&[V]>, err: Option<&str>)
     if kind == "not-plannable" && c.simplified_txt.contains("concat()") {
         return Some("concat-of-null-literals-folded-to-zero-arguments");
     }
-    if kind == "error" && err.is_some_and(|m| m.contains("Overflow happened on: - ")) {
+    if kind == "error"
+        && (err.is_some_and(|m| m.contains("Overflow happened on: - "))
+            || (expr_has(c.original, |n| matches!(n, Expr::Negative(_)))
+                && row.is_some_and(|row| c.refs.iter().any(|&ci| env.cols[ci].dt.is_signed_integer() && int_range(&env.cols[ci].dt).is_some_and(|(lo, _)| matches!(&row[ci], V::I(x) if *x == lo))))))
+    {
         return Some("negative-of-min-scalar-raises-array-wraps");
     }
-    if kind == "data-type" && expr_has(c.original, |n| matches!(n, Expr::BinaryExpr(b) if b.op == Operator::Multiply && ty(n).is_some_and(|t| matches!(t, DataType::Decimal128(_, _))))) && c.simplified_txt.starts_with("Decimal128(0") {
-        return Some("decimal-multiply-by-zero-keeps-literal-type");
-    }
-    if kind != "data-type"
-        && expr_has(c.original, |n| matches!(n, Expr::BinaryExpr(b) if b.op == Operator::Modulo && ty(&b.left).is_some_and(|t| matches!(t, DataType::Decimal128(_, s) if s > 0)) && matches!(b.right.as_ref(), Expr::Literal(ScalarValue::Decimal128(Some(v), _, sc), _) if *sc >= 0 && *v == 10i128.pow(*sc as u32))))
-        && !c.simplified_txt.contains(" % ")
-    {
+    // A * 0 -> the zero literal (its own decimal type, not the product's); A % 1 -> 0 for decimals with a fraction.
+    // Both surface directly (value / data type) and downstream (typed kernels reject the operands, scales shift).
+    let otxt = format!("{}", c.original);
+    let fewer = |op: &str| otxt.matches(op).count() > c.simplified_txt.matches(op).count();
+    let is_dec = |e: &Expr| ty(e).is_some_and(|t| matches!(t, DataType::Decimal128(_, _)));
+    if fewer(" % ") && expr_has(c.original, |n| matches!(n, Expr::BinaryExpr(b) if b.op == Operator::Modulo && ty(&b.left).is_some_and(|t| matches!(t, DataType::Decimal128(_, s) if s > 0)) && !matches!(b.right.as_ref(), Expr::Column(_)))) {
         return Some("decimal-modulo-one-folded-to-zero");
+    }
+    if fewer(" * ") && expr_has(c.original, |n| matches!(n, Expr::BinaryExpr(b) if b.op == Operator::Multiply && is_dec(n) && (is_lit_or_cast_lit(&b.left) || is_lit_or_cast_lit(&b.right)))) {
+        return Some("decimal-multiply-by-zero-keeps-literal-type");
     }
     if expr_has(c.original, |n| {
         matches!(n, Expr::BinaryExpr(b) if matches!(b.op, Operator::BitwiseAnd | Operator::BitwiseOr | Operator::BitwiseXor) && (matches!(b.left.as_ref(), Expr::Negative(_)) || matches!(b.right.as_ref(), Expr::Negative(_))))
@@ -687,8 +703,32 @@ fn classify(cx: &Ctx, c: &Cmp, kind: &str, row: Option<&[V]>, err: Option<&str>)
         return Some("bitwise-rule-treats-arithmetic-negation-as-not");
     }
     // TRY_CAST(x AS narrower) <op> literal is unwrapped to x <op> literal: rows on which the TRY_CAST yields NULL change
-    if kind != "data-type" && format!("{}", c.original).matches("TRY_CAST(").count() > c.simplified_txt.matches("TRY_CAST(").count() {
-        return Some("try-cast-narrowing-unwrapped");
+    if kind != "data-type" && expr_has(c.original, |n| matches!(n, Expr::TryCast(_))) {
+        if format!("{}", c.original).matches("TRY_CAST(").count() > c.simplified_txt.matches("TRY_CAST(").count() {
+            return Some("try-cast-narrowing-unwrapped");
+        }
+        // (BETWEEN / COALESCE expansion duplicates operands, so counting is not enough) semantic test: the row is one
+        // on which a TRY_CAST of the original fails, i.e. the same expression with CAST raises an error there
+        if let (Some(r), Some(batch)) = (row_index, c.batch) {
+            use datafusion_common::tree_node::{Transformed, TransformedResult, TreeNode};
+            let strict = c
+                .original
+                .clone()
+                .transform_up(|n| {
+                    Ok(match n {
+                        Expr::TryCast(t) => Transformed::yes(Expr::Cast(datafusion_expr::expr::Cast::new_from_field(t.expr, t.field))),
+                        other => Transformed::no(other),
+                    })
+                })
+                .data();
+            if let Ok(strict) = strict {
+                if let Ok(pe) = env.physical(&strict) {
+                    if eval_batch(&pe, &batch.slice(r, 1)).is_err() {
+                        return Some("try-cast-narrowing-unwrapped");
+                    }
+                }
+            }
+        }
     }
     if let Some(row) = row {
         // date_part() returns NULL (not an error) for dates outside chrono's range; its preimage rewrite answers false/true
@@ -712,8 +752,17 @@ fn classify(cx: &Ctx, c: &Cmp, kind: &str, row: Option<&[V]>, err: Option<&str>)
     if let Some(row) = row {
         // IN-list / simple-CASE / NULLIF membership compares floats bit-wise, `=` normalises -0.0: every
         // rewrite between the two forms changes the value on a zero of the other sign
-        let zero_in_row = c.refs.iter().any(|&ci| matches!(&row[ci], V::F(f) if *f == 0.0));
-        if (kind == "value" || kind == "null-ness") && (zero_in_row || expr_has(c.original, is_float_zero_lit)) && zero_in_row {
+        let float_zero_in_row = c.refs.iter().any(|&ci| matches!(&row[ci], V::F(f) if *f == 0.0));
+        // (an integer 0 cast to float meets a float-zero literal of the other sign the same way)
+        let zero_in_row = float_zero_in_row || (expr_has(c.original, is_float_zero_lit) && c.refs.iter().any(|&ci| matches!(&row[ci], V::I(0))));
+        // a membership test against a float-zero literal meets computed zeros (1.0 % 1.0, CAST(0 AS DOUBLE), ..) too
+        let zero_member = expr_has(c.original, |n| match n {
+            Expr::InList(l) => l.list.iter().any(is_float_zero_lit) || is_float_zero_lit(&l.expr),
+            Expr::Case(cs) => cs.expr.is_some() && cs.when_then_expr.iter().any(|(w, _)| is_float_zero_lit(w)),
+            Expr::ScalarFunction(f) => f.func.name() == "nullif" && f.args.iter().any(is_float_zero_lit),
+            _ => false,
+        });
+        if kind != "data-type" && (zero_in_row || zero_member) {
             return Some("float-zero-sign-membership-vs-equality");
         }
     }
@@ -763,12 +812,26 @@ fn compare(cx: &Ctx, c: &Cmp, orig: &Orig, simp: &Evald) -> usize {
             Some(sv) if !sv.same(ov) => (if sv.is_null() != ov.is_null() { "null-ness" } else { "value" }, json!({"simplified_value": sv.to_json()})),
             _ => continue,
         };
-        let mut class = classify(cx, c, kind, Some(&c.rows[r]), simp.batch_err.as_deref());
+        // the sign of a NaN produced by arithmetic depends on the kernel path, and comparisons (IEEE totalOrder) see
+        // it: outside what the statement can demand
+        if c.refs.iter().any(|&ci| matches!(&c.rows[r][ci], V::F(f) if f.is_nan()))
+            && expr_has(c.original, |n| matches!(n, Expr::Negative(_)) || matches!(n, Expr::BinaryExpr(b) if matches!(b.op, Operator::Plus | Operator::Minus | Operator::Multiply | Operator::Divide | Operator::Modulo)))
+        {
+            cx.rep.count("rows_not_judged(nan-arithmetic-sign-unspecified)", 1);
+            continue;
+        }
+        let mut class = classify(cx, c, kind, Some(r), simp.batch_err.as_deref());
         if class.is_none() {
             // the original's value came from the independent evaluator: does the engine's bit-wise membership
             // semantics (IN / simple CASE / NULLIF) explain the difference?
-            if let (Some(alt), Some(sv)) = (&orig.alt_bitwise, &sv) {
-                if alt[r].as_ref().is_some_and(|a| a.same(sv)) {
+            if let Some(alt) = &orig.alt_bitwise {
+                let explained = match (&alt[r], &sv) {
+                    (Some(a), Some(sv)) => a.same(sv),
+                    // under the engine's membership semantics the row raises (a lazily skipped branch is reached)
+                    (None, None) => true,
+                    _ => false,
+                };
+                if explained {
                     class = Some("float-zero-sign-membership-vs-equality");
                 }
             }
@@ -978,7 +1041,7 @@ fn check_expr(cx: &Ctx, tag: &str, raw: Expr, rng: &mut Rng, case_no: u64, syste
                 rep.count("changed/simplify", 1);
                 rep.seen("families_changed", tag);
                 rep.seen("top_transitions", &format!("{} -> {}", top_op(&coerced), top_op(&s)));
-                compared_total += eval_and_compare(cx, &Cmp { mode: "simplify", tag, original: &coerced, simplified_txt: "", rows: &rows, inside: &all_inside, refs: &refs, guarantees: &[], extra: json!(null), case_no }, &s, &orig, &batch);
+                compared_total += eval_and_compare(cx, &Cmp { mode: "simplify", tag, original: &coerced, simplified_txt: "", rows: &rows, inside: &all_inside, refs: &refs, guarantees: &[], extra: json!(null), case_no, batch: Some(&batch) }, &s, &orig, &batch);
                 if rep.want_sample() && systematic && case_no % 211 == 3 {
                     rep.sample(json!({"family": tag, "original": text, "simplified": format!("{s}"), "rows": rows.len()}));
                 }
@@ -1011,7 +1074,7 @@ fn check_expr(cx: &Ctx, tag: &str, raw: Expr, rng: &mut Rng, case_no: u64, syste
                 if s != coerced {
                     rep.count("changed/with_guarantees", 1);
                     if n_inside > 0 {
-                        compared_total += eval_and_compare(cx, &Cmp { mode: "with_guarantees", tag, original: &coerced, simplified_txt: "", rows: &rows, inside: &inside, refs: &refs, guarantees: &gs, extra: json!({"guarantees": gtxt}), case_no }, &s, &orig, &batch);
+                        compared_total += eval_and_compare(cx, &Cmp { mode: "with_guarantees", tag, original: &coerced, simplified_txt: "", rows: &rows, inside: &inside, refs: &refs, guarantees: &gs, extra: json!({"guarantees": gtxt}), case_no, batch: Some(&batch) }, &s, &orig, &batch);
                     }
                 }
             }
@@ -1023,7 +1086,7 @@ fn check_expr(cx: &Ctx, tag: &str, raw: Expr, rng: &mut Rng, case_no: u64, syste
                 if t.transformed && t.data != coerced {
                     rep.count("changed/rewrite_with_guarantees", 1);
                     if n_inside > 0 {
-                        compared_total += eval_and_compare(cx, &Cmp { mode: "rewrite_with_guarantees", tag, original: &coerced, simplified_txt: "", rows: &rows, inside: &inside, refs: &refs, guarantees: &gs, extra: json!({"guarantees": gtxt}), case_no }, &t.data, &orig, &batch);
+                        compared_total += eval_and_compare(cx, &Cmp { mode: "rewrite_with_guarantees", tag, original: &coerced, simplified_txt: "", rows: &rows, inside: &inside, refs: &refs, guarantees: &gs, extra: json!({"guarantees": gtxt}), case_no, batch: Some(&batch) }, &t.data, &orig, &batch);
                     }
                 }
             }
@@ -1040,7 +1103,7 @@ fn check_expr(cx: &Ctx, tag: &str, raw: Expr, rng: &mut Rng, case_no: u64, syste
                 if before != after {
                     rep.count("changed/physical", 1);
                     let sev = eval_guarded(&sp, &batch);
-                    compared_total += compare(cx, &Cmp { mode: "physical", tag, original: &coerced, simplified_txt: &after, rows: &rows, inside: &all_inside, refs: &refs, guarantees: &[], extra: json!({"physical_original": before}), case_no }, &orig, &sev);
+                    compared_total += compare(cx, &Cmp { mode: "physical", tag, original: &coerced, simplified_txt: &after, rows: &rows, inside: &all_inside, refs: &refs, guarantees: &[], extra: json!({"physical_original": before}), case_no, batch: Some(&batch) }, &orig, &sev);
                 } else {
                     rep.count("unchanged/physical", 1);
                 }
@@ -1058,7 +1121,7 @@ fn check_expr(cx: &Ctx, tag: &str, raw: Expr, rng: &mut Rng, case_no: u64, syste
 
 fn eval_and_compare(cx: &Ctx, c: &Cmp, s: &Expr, orig: &Orig, batch: &arrow::record_batch::RecordBatch) -> usize {
     let stxt = format!("{s}");
-    let c = Cmp { mode: c.mode, tag: c.tag, original: c.original, simplified_txt: &stxt, rows: c.rows, inside: c.inside, refs: c.refs, guarantees: c.guarantees, extra: c.extra.clone(), case_no: c.case_no };
+    let c = Cmp { mode: c.mode, tag: c.tag, original: c.original, simplified_txt: &stxt, rows: c.rows, inside: c.inside, refs: c.refs, guarantees: c.guarantees, extra: c.extra.clone(), case_no: c.case_no, batch: c.batch };
     let (mode, tag) = (c.mode, c.tag);
     let sp = match vcommon::par::guard(|| cx.env.physical(s)) {
         Ok(Ok(p)) => p,
@@ -1090,7 +1153,7 @@ fn eval_and_compare(cx: &Ctx, c: &Cmp, s: &Expr, orig: &Orig, batch: &arrow::rec
                 sev.dt = None;
                 sev.batch_err = None;
                 cx.rep.count("simplified_value_from_reference_evaluator", 1);
-                let c2 = Cmp { mode: c.mode, tag: c.tag, original: c.original, simplified_txt: &stxt, rows: c.rows, inside: &inside, refs: c.refs, guarantees: c.guarantees, extra: c.extra.clone(), case_no: c.case_no };
+                let c2 = Cmp { mode: c.mode, tag: c.tag, original: c.original, simplified_txt: &stxt, rows: c.rows, inside: &inside, refs: c.refs, guarantees: c.guarantees, extra: c.extra.clone(), case_no: c.case_no, batch: c.batch };
                 return compare(cx, &c2, orig, &sev);
             }
             Err(_) => {
@@ -1160,7 +1223,7 @@ fn check_predicates(cx: &Ctx, preds: Vec<Expr>, rng: &mut Rng, case_no: u64) {
                 if has_both_orders && simplified.iter().any(|p| matches!(p, Expr::Literal(ScalarValue::Boolean(Some(false)), _))) {
                     "simplify_predicates/equal-predicates-in-both-operand-orders-folded-to-false"
                 } else if lit_left {
-                    "simplify_predicates/filter-truth-changed/literal-on-the-left"
+                    "simplify_predicates/most-restrictive-tie-break-with-literal-on-the-left"
                 } else {
                     "simplify_predicates/filter-truth-changed"
                 },
@@ -1222,7 +1285,7 @@ fn run(args: &Args) -> i32 {
     }
 
     // seeded random tail
-    let n_rand = args.bound("random", 6000, 300_000) / stage_div as u64;
+    let n_rand = args.bound("random", 10_000, 300_000) / stage_div as u64;
     vcommon::par::run(args.workers, 0..n_rand, |i| {
         if rep.violation_count() > 400 {
             return;
